@@ -23,15 +23,41 @@ func VerifyInclusion(iproof [][sha256.Size]byte, i, j uint64, iLeaf, jRoot [sha2
 		return false
 	}
 
-	// the number of proof terms must bring the claimed position onto the right-most
-	// path of the tree of size j, otherwise the proof is for a different position
-	if (i-1)>>uint(len(iproof)) != (j-1)>>uint(len(iproof)) {
+	// the number of proof terms is determined by the claimed position: fewer terms would prove a
+	// different position, further terms would let the root of a tree of another shape pass
+	if len(iproof) != inclusionProofLen(i, j) {
 		return false
 	}
 
 	ciRoot := EvalInclusion(iproof, i, j, iLeaf)
 
 	return jRoot == ciRoot
+}
+
+// inclusionProofLen is the number of terms of the inclusion proof of the i-th leaf in the tree
+// with j leaves (1 <= i <= j): one sibling per level until the path joins the right-most path of the
+// tree, then one sibling for every level at which the right-most node is a right child (at the
+// other levels that node is promoted without a sibling)
+func inclusionProofLen(i, j uint64) int {
+	i1 := i - 1
+	j1 := j - 1
+
+	n := 0
+
+	for i1 != j1 {
+		n++
+		i1 >>= 1
+		j1 >>= 1
+	}
+
+	for j1 > 0 {
+		if j1&1 == 1 {
+			n++
+		}
+		j1 >>= 1
+	}
+
+	return n
 }
 
 func EvalInclusion(iproof [][sha256.Size]byte, i, j uint64, iLeaf [sha256.Size]byte) [sha256.Size]byte {
@@ -115,7 +141,7 @@ func EvalConsistency(cproof [][sha256.Size]byte, i, j uint64) ([sha256.Size]byte
 }
 
 func VerifyLastInclusion(iproof [][sha256.Size]byte, i uint64, leaf, root [sha256.Size]byte) bool {
-	if i == 0 {
+	if i == 0 || len(iproof) != inclusionProofLen(i, i) {
 		return false
 	}
 
